@@ -455,6 +455,13 @@ pub fn parse_date_yymmdd(input: &str) -> Result<NaiveDate, ParseError> {
         });
     }
 
+    // Only ASCII digits: `str::parse` would also accept a sign, and byte slicing needs ASCII
+    if !input.bytes().all(|b| b.is_ascii_digit()) {
+        return Err(ParseError::InvalidFormat {
+            message: "Date must contain only digits".to_string(),
+        });
+    }
+
     let year = input[0..2]
         .parse::<u32>()
         .map_err(|_| ParseError::InvalidFormat {
@@ -490,6 +497,13 @@ pub fn parse_date_yyyymmdd(input: &str) -> Result<NaiveDate, ParseError> {
         });
     }
 
+    // Only ASCII digits: `str::parse` would also accept a sign, and byte slicing needs ASCII
+    if !input.bytes().all(|b| b.is_ascii_digit()) {
+        return Err(ParseError::InvalidFormat {
+            message: "Date must contain only digits".to_string(),
+        });
+    }
+
     let year = input[0..4]
         .parse::<i32>()
         .map_err(|_| ParseError::InvalidFormat {
@@ -519,6 +533,13 @@ pub fn parse_time_hhmm(input: &str) -> Result<NaiveTime, ParseError> {
                 "Time must be in HHMM format (4 digits), found {} characters",
                 input.len()
             ),
+        });
+    }
+
+    // Only ASCII digits: `str::parse` would also accept a sign, and byte slicing needs ASCII
+    if !input.bytes().all(|b| b.is_ascii_digit()) {
+        return Err(ParseError::InvalidFormat {
+            message: "Time must contain only digits".to_string(),
         });
     }
 
